@@ -97,7 +97,39 @@ def check(proj, only, items, default, publist):
     return bad
 
 
+DEEP = {
+    "src/z_base.f90": "module z_base\n  implicit none\n  integer :: base_count\n  type :: base_t\n    integer :: c\n  end type base_t\ncontains\n  subroutine base_sub()\n  end subroutine base_sub\nend module z_base\n",
+    "src/m_mid.f90": "module m_mid\n  use z_base\n  implicit none\nend module m_mid\n",
+    "src/a_top.f90": ("module a_top\n  implicit none\ncontains\n  subroutine outer()\n  contains\n    subroutine inner()\n      use m_mid\n      type(base_t) :: v\n      call base_sub()\n"
+                      "    end subroutine inner\n  end subroutine outer\nend module a_top\n"),
+}
+
+
+def deep_use():
+    """a USE two procedure levels below a module, of a module that re-exports a third one: the modules must be correlated in dependency order"""
+    proj = realrun.build_project(DEEP, display=["public", "private", "protected"], proc_internals=True)
+    mods = {m.name.lower(): m for m in proj.modules}
+    outer = mods["a_top"].subroutines[0]
+    inner = outer.subroutines[0]
+    z = mods["z_base"]
+    bad = []
+    if inner.all_procs.get("base_sub") is not z.all_procs.get("base_sub"):
+        bad.append("internal procedure a_top::outer::inner uses m_mid, which re-exports z_base: base_sub is not visible in inner")
+    if inner.all_types.get("base_t") is not z.all_types.get("base_t"):
+        bad.append("... base_t is not visible in inner")
+    v = inner.variables[0]
+    if isinstance(v.proto[0], str):
+        bad.append("type(base_t) in inner stays unresolved text")
+    if not inner.calls or isinstance(inner.calls[0], str):
+        bad.append("call base_sub() in inner stays unresolved text")
+    return bad
+
+
 def search():
+    bad = deep_use()
+    if bad:
+        return {"confirmed": True, "input": {"files": DEEP}, "actual": bad, "expected": "USE association through a re-exporting module, wherever the USE statement is nested",
+                "how": "bounded search on the real pipeline: module chain z_base <- m_mid <- a_top::outer::inner"}
     for label, use_txt, only, items, default, publist in cases():
         files = {"src/a.f90": A_TEXT, "src/b.f90": b_text(use_txt, default, publist), "src/c.f90": C_TEXT}
         try:
@@ -113,4 +145,4 @@ def search():
 
 
 def count_cases():
-    return sum(1 for _ in cases())
+    return sum(1 for _ in cases()) + 1
